@@ -501,6 +501,9 @@ class Inliner:
         self._cache = {}
         self.enabled = True
         self.count = 0
+        # anchors the rules reason about BY NAME (C11: the deep locator of the category tree): never looked through, whatever
+        # their body becomes
+        self.opaque = {'_find_subtree'}
 
     def single_expr(self, target):
         k = id(target.node)
@@ -539,7 +542,7 @@ class Inliner:
                 self.generic_visit(c)
                 f = c.func
                 name = f.attr if isinstance(f, ast.Attribute) else (f.id if isinstance(f, ast.Name) else None)
-                if not name or not name.startswith('_') or name.startswith('__'):
+                if not name or not name.startswith('_') or name.startswith('__') or name in inl.opaque:
                     return c
                 try:
                     target, bound = F._static_callee(inl.ctx, c, fi)
